@@ -57,3 +57,8 @@ CHECKS["C17"] = ("exploration",
   "For every cell of a margin x temperature grid (better / equal / worse by 1e-9 .. 1e6; T from 1e-300 to 1e300) and random cells, N seeded trials run the real component on a prepared stack: the two populations must collapse to one holding exactly the current or the candidate individual, a candidate at least as good must always win, and the acceptance frequency of a worse one must match exp(-delta/T) within 6 sigma (exactly never / always where the exponential under- or overflows). GeometricCooling is compared bit-exactly over repeated executions.",
   "Deviations of the acceptance probability inside the 6-sigma band for N trials are invisible.",
   "DESIGN.md §6 C17")
+CHECKS["C16"] = ("exploration",
+  "proptest over (template, valid parameter draw, instance, iterations, seed) for all 21 constructors, audited at every component step through the step observer",
+  "Each of the 21 template constructors is drawn with parameters from the ranges its constructor and the documented operator contracts accept, on small real / binary / permutation / TSP instances (dimension 1 included), for 0-25 iterations and random seeds, and run through optimize_with with the step observer attached: the run must return Ok, perform exactly the requested number of iterations (counter and observed passes), end every pass of the main loop with the stack at its initial height (1 at the end of the run) and keep the population size within the template's rule.",
+  "Hook: step observer (feature mahf_verif) and the ACO parameter constructors. The main loop is identified as the first Loop whose body executes.",
+  "DESIGN.md §6 C16")
